@@ -25,6 +25,9 @@ Next == /\ l <= Len(Tr)
            CASE ev.e = "alloc" -> Alloc(ev.id)
              [] ev.e = "free"  -> Free(ev.id)
              [] ev.e = "reset" -> Reset
+             \* a block attributed by the harness to a *recorded* leak (known finding) is written off
+             \* explicitly; any other leftover block still makes the following reset fail
+             [] ev.e = "knownleak" -> Free(ev.id)
              [] OTHER -> FALSE          \* "badfree" and anything unknown is rejected
 Accepted == TLCGet("stats").diameter - 1 = Len(Tr)
 \* for the evidence: the prefix that was accepted
